@@ -110,12 +110,36 @@ def run_history(rng, length, quick):
     c1 = cs.Container(); w.reg(c1); step({"op": "newC"})
     l1 = cs.ListContainer(); w.reg(l1); step({"op": "newL"})
     c2 = cs.Container(); w.reg(c2); step({"op": "newC"})
+    # plain Python values that user code puts into containers (searched by key, never descended into)
+    plain = rng.random() < 0.5
+    if plain:
+        d1 = {}; w.reg(d1); step({"op": "newd"})
+        p1 = []; w.reg(p1); step({"op": "newl"})
     for _ in range(length):
         cons = [i + 1 for i, o in enumerate(w.objs) if w.cls(o) == "C"]
         lists = [i + 1 for i, o in enumerate(w.objs) if w.cls(o) == "L"]
         r = rng.random()
         o = rng.choice(cons)
         obj = w.objs[o - 1]
+        if plain and rng.random() < 0.12:
+            # fill the plain values, and hang them into a container under a searchable key
+            which = rng.randrange(3)
+            if which == 0:
+                k = rng.choice(KEYS); v = rng.choice([V.VInt(1), V.VNone(), V.VStr("x")])
+                od = next(i + 1 for i, x in enumerate(w.objs) if x is d1)
+                d1[k] = w.real(v); step({"op": "set", "o": od, "key": k, "val": v})
+            elif which == 1:
+                v = rng.choice([V.VInt(1), V.VInt(0), V.VNone()])
+                ol = next(i + 1 for i, x in enumerate(w.objs) if x is p1)
+                p1.append(w.real(v)); step({"op": "append", "o": ol, "val": v})
+            else:
+                tgt = rng.choice([d1, p1])
+                if not any(x is obj for x in w.reach(tgt)):
+                    k = rng.choice(KEYS)
+                    if k not in ("keys", "update"):
+                        v = {"t": "ref", "o": next(i + 1 for i, x in enumerate(w.objs) if x is tgt)}
+                        obj[k] = w.real(v); step({"op": "set", "o": o, "key": k, "val": v})
+            continue
         def reaches(a, b):
             "can object a reach object b (identity) through nested values"
             return any(x is b for x in w.reach(a))
@@ -196,7 +220,7 @@ def run(ctx):
     common.design_level(ctx, "MC_C20", workers=16)
     cases = []
     nt = 0
-    for i in range(500 if quick else 8000):
+    for i in range(1500 if quick else 12000):
         steps = run_history(rng, rng.randint(4, 10), quick)
         cases.append({"id": "h%d" % i, "kind": "hist", "steps": steps})
         ops = [s["op"]["op"] for s in steps]
